@@ -120,6 +120,20 @@ def main():
             jobs.append((b''.join(seq), [''], ('target=C0',) if n >= 4 else ('', 'target=C0')))
     for w in WHOLE:
         jobs.append((w, osets[:19], ('', 'target=new')))
+    # every kind of token ending exactly at, just before and just after a 4096-byte read boundary, followed by every kind of
+    # trouble: an error reported (and rejected) while the scanner refills its buffer must not get lost
+    TOKENS = [b';text\n;', b"'q s'", b'"q"', b"'''t\nq'''", b'bare', b'[1 2]', b"{'k':v}", b'#cmt', b'?', b"[{'k':[", b'\n;\\\nfol\\\nded\n;']
+    TAILS = [b'', b'\xff', b' \xc3', b'\n_y \xed\xa0\x80 1\n', b' \x00 ', b'\x7f', b'\n_y 1 2\n', b':', b'x', b"'", b'\n_x 2\n', b' \xef\xbf\xbe', b'\r\n_y \xc3\x28\n']
+    for magic in (b'#\\#CIF_2.0\n', b''):
+        head = magic + b'data_a\n_x\n'
+        for tkn in TOKENS:
+            for boundary in ((4096, 8192) if tier != 'quick' else (4096,)):
+                for d in ((-2, -1, 0, 1, 2) if tier != 'quick' else (-1, 0, 1)):
+                    m = boundary + d - len(head) - len(tkn) - 1
+                    body = head + b'#' + b'p' * (m - 2) + b'\n' + b' ' + tkn
+                    assert len(body) == boundary + d
+                    for tail in TAILS:
+                        jobs.append((body + tail, [''], ('', 'target=new')))
     # megabyte inputs: one token around the scan-buffer sizes, deep nesting
     for nunits in (65599, 65600, 65601, 131199, 131200, 131201, 262400):
         jobs.append((b'data_a\n_x ' + b'v' * nunits + b'\n', [''], ('', 'target=new')))
@@ -145,7 +159,7 @@ def main():
                           {'input_hex': data[:4000].hex(), 'input_len': len(data), 'options': opts, 'target': target, 'message': msg[:4000]})
     return rep.finish({'evaluations': total, 'distinct_nontrivial': nerr,
                        'rule': 'all sequences of at most 4 (thorough 5) of 16 grammar-level phrases (data names, loop headers, values, frames, composites; stored into a pre-populated CIF); all sequences of at most %d of the %d byte fragments under %d option settings x target {none, new, pre-populated}, sequences of at most %d fragments under the default options and corner settings, '
-                               'whole-input UTF-16/32 renderings with and without BOM and with unpaired surrogates, tokens of 65599..262400 units, 100000-deep nesting; for each: the all-accepting callback, then every policy '
+                               '11 kinds of token ending at a 4096-byte read boundary -1/0/+1 followed by 13 kinds of trouble (CIF 2.0 and 1.1); whole-input UTF-16/32 renderings with and without BOM and with unpaired surrogates, tokens of 65599..262400 units, 100000-deep nesting; for each: the all-accepting callback, then every policy '
                                '"accept k-1 errors, answer r at the k-th" (k <= 10; r in CIF_CLIENT_ERROR, the reported code, -1), cif_parse_error_die, NULL callback, NULL options, cif_parse_error_ignore; '
                                'evaluations = (input, options, target) cells, each comprising all those parses; non-trivial = cells with at least one reported error' % (L, len(FRAGS), len(osets), LD),
                        'samples': [FRAGS[1].decode() + FRAGS[7].decode(), "data_a'''"], 'distinct_error_codes_observed': sorted(codes), 'build': cfg, 'exhaustive': True},
